@@ -160,11 +160,70 @@ def check(ctx):
                 ctx.violation("G", f"{r.qual}|{bad}", r.where, f"at {d} {paid} can return {bad} - neither 0 nor exactly the entitlement {ent}: the payment is not bounded by the entitlement")
     for (q, dt), why in REVIEWED.items():
         ctx.info(f"reviewed denominator {q}: `{dt}` - {why}")
+    unit_consistency(ctx, repo)
     ctx.extra_cov["denominators_discharged_by"] = discharged_by
     ctx.extra_cov["dates"] = len(dates)
     ctx.sample({"discharged_by": discharged_by})
     ctx.floor("Z", 1000)
     ctx.floor("G", 3 * 8)
+
+
+def unit_consistency(ctx, repo):
+    """U: quantities combined by + - comparison min max carry the same time unit (name suffix _y/_m/_w/_d),
+    unless an explicit numeric factor converts one of them.  A cap applied in another unit than the capped
+    quantity is off by the unit factor (e.g. a monthly wage capped at the *yearly* ceiling is not capped)."""
+    import re
+
+    ctx.rule("U", "operands of + - < <= > >= == min max in a rule share their time unit (suffix y/m/w/d before the group suffix); a numeric factor marks an explicit conversion")
+    G, U = repo.groupings, repo.time_units
+    tr = re.compile(f"(?P<base>.*_)(?P<u>[{''.join(U)}])(?P<agg>{'|'.join('_' + g for g in G)})?")
+    n_ops = 0
+    for r in repo.rules:
+        env = {a: (tr.fullmatch(a).group("u") if tr.fullmatch(a) else None) for a in r.argnames}
+
+        def unit(e):
+            if isinstance(e, ast.Name):
+                return env.get(e.id)
+            if isinstance(e, ast.BinOp):
+                a, b = unit(e.left), unit(e.right)
+                if isinstance(e.op, (ast.Add, ast.Sub)):
+                    return a or b
+                if isinstance(e.op, (ast.Mult, ast.Div)):
+                    if any(isinstance(x, ast.Constant) for x in (e.left, e.right)) or (a and b):
+                        return None
+                    return a or b
+                return None
+            if isinstance(e, ast.Call) and isinstance(e.func, ast.Name) and e.func.id in ("min", "max", "float", "abs", "round"):
+                us = {unit(a) for a in e.args} - {None}
+                return us.pop() if len(us) == 1 else None
+            if isinstance(e, ast.IfExp):
+                us = {unit(e.body), unit(e.orelse)} - {None}
+                return us.pop() if len(us) == 1 else None
+            return None
+
+        for n in ast.walk(r.node):
+            if isinstance(n, ast.Assign) and isinstance(n.targets[0], ast.Name):
+                env[n.targets[0].id] = unit(n.value)
+        for n in ast.walk(r.node):
+            pairs = []
+            if isinstance(n, ast.BinOp) and isinstance(n.op, (ast.Add, ast.Sub)):
+                pairs = [(n.left, n.right)]
+            elif isinstance(n, ast.Compare) and len(n.ops) == 1:
+                pairs = [(n.left, n.comparators[0])]
+            elif isinstance(n, ast.Call) and isinstance(n.func, ast.Name) and n.func.id in ("min", "max") and len(n.args) == 2:
+                pairs = [(n.args[0], n.args[1])]
+            for a, b in pairs:
+                ua, ub = unit(a), unit(b)
+                if ua and ub:
+                    n_ops += 1
+                    ok = ua == ub
+                    ctx.ob("U", ok=ok, distinct=(r.qual, ast.unparse(n)[:60]))
+                    if not ok:
+                        names = {"y": "yearly", "m": "monthly", "w": "weekly", "d": "daily"}
+                        ctx.violation("U", f"{r.qual}|{ast.unparse(n)[:80]}", f"src/_gettsim/{r.mod.rel}:{n.lineno} {r.name}",
+                                      f"`{ast.unparse(n)[:90]}` combines a {names.get(ua, ua)} with a {names.get(ub, ub)} quantity without a conversion factor: a cap / comparison in the wrong unit is off by the unit factor")
+    ctx.extra_cov["unit_checked_operations"] = n_ops
+    ctx.floor("U", 100)
 
 
 def _is_count(dag, name):
